@@ -1,6 +1,6 @@
 /-
 Lemmas for property C07, phase 2, part 10: for positive curvature, **the shape of delaney2d's
-orbifold symbol is the shape of the private key**.  Under C08's genus monitor (`D2.genusMonitor`,
+orbifold symbol is the shape of the private key**.  Under C08's parity monitor (`D2.parityMonitor`,
 a decidable check the drivers evaluate) and the additional decidable check "a symbol that is not
 weakly oriented has at least one cross-cap", a symbol of positive curvature is exactly one of
   (A) loop-free and weakly oriented: no boundary, no cross-cap;
@@ -219,11 +219,11 @@ inductive Shape (o : OrbSym) (loopless wo : Bool) : Prop
       (orbOf o).handles = 0 → Shape o loopless wo
 
 theorem shape_of_positive {s : Sym} (g : Good2d s) (hsz : s.view.size = s.size) (hdm : s.view.dim = s.dim)
-    {o : OrbSym} (hx : SymbolExact s o) (hcap : o.orientable = false → 1 ≤ o.count)
+    {o : OrbSym} (hx : SymbolCensus s o) (hcap : o.orientable = false → 1 ≤ o.count)
     (hpos : 0 < SpecC08.chiQ (orbOf o)) :
     Shape o s.view.isLoopless s.view.isWeaklyOriented := by
   obtain ⟨bnds, htb, hb, hori, _⟩ := orbSym_fields g hx.sym
-  obtain ⟨hh, hlen⟩ := SpecC08.chi_pos_shape (orbOf o) (orbOf_wf hx) hpos
+  obtain ⟨hh, hlen⟩ := SpecC08.chi_pos_shape (orbOf o) (orbOf_wf_census hx) hpos
   have hnil := traceBoundary_nil_iff s bnds htb hsz hdm
   rw [← hb] at hnil
   have hbl : (orbOf o).bnds = o.bnds := rfl
